@@ -301,7 +301,7 @@ func runMut(c *fw.Ctx) {
 				swaps++
 			}
 			c.CountN("mut_nil_kind_swaps", swaps)
-			if i < 2 {
+			if i < 1 && c.Batch == 0 {
 				c.Sample(map[string]interface{}{"case": "mutation", "type": name, "base_bytes": len(enc), "tree_nodes": len(nodes), "headers": len(hp)})
 			}
 		})
